@@ -608,10 +608,11 @@ impl World {
         };
         let mut sh = self.shared.borrow_mut();
         sh.fail_idx = None;
+        let emitted = sh.last_msgs.len();
         let msgs = if outcome == "ok" { sh.last_msgs.clone() } else { vec![] };
         let calls = sh.market_calls;
         drop(sh);
-        json!({"outcome": outcome, "err": err, "msgs": msgs, "market_calls": calls, "obs": self.observe()})
+        json!({"outcome": outcome, "err": err, "msgs": msgs, "emitted": emitted, "market_calls": calls, "obs": self.observe()})
     }
 
     pub fn run_queries(&self, req: &Value) -> Value {
